@@ -84,7 +84,8 @@ def stderr_problem(comps, varies, rng_seed, with_B):
     data[rs.randint(14), rs.randint(15)] = np.nan
     mask = np.where(np.isfinite(data))
     npix = len(mask[0])
-    errs = 0.37
+    # per-pixel noise in half of the cases: only then does the order of scaling and whitening matter
+    errs = 0.37 if rng_seed % 2 == 0 else rs.uniform(0.2, 0.9, size=npix)
     B = None
     if with_B:
         C = fitting.Cmatrix(mask[0], mask[1], 1.2, 0.9, 20.0)
@@ -96,7 +97,7 @@ def stderr_problem(comps, varies, rng_seed, with_B):
         M = M.dot(B)
     M = M.T
     lj = fitting.lmfit_jacobian(pars, mask[0], mask[1], errs=errs, B=B)
-    if lj.shape != M.shape or not np.allclose(lj, M, rtol=1e-12, atol=0):
+    if lj.shape != M.shape or not np.allclose(lj, M, rtol=1e-9, atol=1e-12 * float(np.max(np.abs(M)))):
         return 'lmfit_jacobian is not transpose((jacobian/errs).B)', None
     fisher = M.T.dot(M)
     try:
